@@ -184,7 +184,10 @@ public:
             return {pos, lo, hi};
         }
 
-        auto p = int64_t(root_slope * (k - first_key)) + root_intercept;
+        auto root_pos = root_slope * (k - first_key);
+        // beyond any position when the product does not fit: avoids an out-of-range conversion
+        auto p = root_pos >= Floating(std::numeric_limits<int64_t>::max()) ? std::numeric_limits<int64_t>::max()
+                                                                           : int64_t(root_pos) + root_intercept;
         auto pos = std::min<size_t>(p > 0 ? size_t(p) : 0ull, root_range);
 
         for (const auto &level : levels) {
@@ -359,7 +362,10 @@ struct CompressedPGMIndex<K, Epsilon, EpsilonRecursive, Floating>::CompressedLev
     }
 
     inline size_t operator()(const std::vector<Floating> &slopes, size_t i, K k) const {
-        auto pos = int64_t(get_slope(slopes, i) * (k - keys[i])) + get_intercept(i);
+        auto p = get_slope(slopes, i) * (k - keys[i]);
+        if (p >= Floating(std::numeric_limits<int64_t>::max()))
+            return std::numeric_limits<int64_t>::max(); // beyond any position; avoids an out-of-range conversion
+        auto pos = int64_t(p) + get_intercept(i);
         return pos > 0 ? size_t(pos) : 0ull;
     }
 
